@@ -579,8 +579,10 @@ mod fp61bit {
             let val = (val & PRIME) + (val >> Self::BITS);
             // another round if val ended up being greater than PRIME
             let val = (val & PRIME) + (val >> Self::BITS);
-            if val == PRIME {
-                Self::ZERO
+            // two rounds leave at most PRIME + 64 (for inputs close to `u128::MAX`),
+            // one conditional subtraction completes the reduction
+            if val >= PRIME {
+                Self((val - PRIME) as <Self as SharedValue>::Storage)
             } else {
                 Self(val as <Self as SharedValue>::Storage)
             }
